@@ -574,7 +574,11 @@ def r7(ctx, cfg):
         ok = ok and peel(attrs[1][0]) == ("const", "str", "sender") and is_param(attrs[1][1], "sender")
         ok = ok and peel(attrs[2][0]) == ("const", "str", "amount")
         am = peel(attrs[2][1])
-        ok = ok and am[0] == "call" and am[1] == "bank::coins_to_string" and msgf(am[2][0], "amount")
+        # the amount text is derived from the message's amount and nothing else (the formatting helper coins_to_string is
+        # always spliced; the rendering itself - "<amount><denom>" joined by "," - is a byte-level fact that is not decided)
+        from vlib.prov import leaves as _leaves
+        lv = _leaves(am)
+        ok = ok and msgf(am, "amount") and not any(x[0] == "param" and x[2] != "msg" for x in lv)
         ctx.ob(R, key, "transfer(recipient,sender,amount)", ok,
                "transfer event is %s %s" % (fmt(lit), [(fmt(k), fmt(v)[:50]) for k, v in attrs]), fn=f, line=t["line"],
                sample="Event::new('transfer') recipient<-to_address sender<-sender amount<-coins_to_string(amount)")
